@@ -4,6 +4,7 @@
 package cpuenv
 
 import (
+	"github.com/alttpo/snes/emulator"
 	"github.com/alttpo/snes/emulator/bus"
 	"github.com/alttpo/snes/emulator/cpu65c816"
 	"github.com/alttpo/snes/emulator/cpualt"
@@ -20,6 +21,8 @@ var (
 	MainBus *bus.Bus
 	Main    *cpu65c816.CPU
 	Alt     *cpualt.CPU
+	// Sys is an emulator.System whose bus is a copy of MainBus (one RAM over MainMem, whole range).
+	Sys *emulator.System
 )
 
 func init() {
@@ -32,6 +35,9 @@ func init() {
 	Alt.Init()
 	Alt.Bus.AttachReader(0x000000, 0xFFFFFF, func(addr uint32) uint8 { return AltMem[addr] })
 	Alt.Bus.AttachWriter(0x000000, 0xFFFFFF, func(addr uint32, val uint8) { AltMem[addr] = val })
+	Sys = &emulator.System{}
+	Sys.Bus = *MainBus
+	Sys.CPU.Init(&Sys.Bus)
 }
 
 // Pre is an arbitrary register state (all raw fields of the interpreters' CPU structs).
